@@ -35,7 +35,8 @@ def dtype_to_tensor_type(dtype_like: npt.DTypeLike) -> int:
         return onnx.TensorProto.STRING
     try:
         return onnx.helper.np_dtype_to_tensor_dtype(dtype)
-    except KeyError:
+    except (KeyError, ValueError):
+        # onnx >= 1.17 reports an unknown numpy dtype with ValueError instead of KeyError
         raise TypeError(err_msg)
 
 
